@@ -1350,6 +1350,7 @@ class BaseImage(metaclass=ImageMeta):
 
                 # Render next frame during current frame's duration
                 start = time.time()
+            completed = True
         except KeyboardInterrupt:
             self._handle_interrupted_draw()
         except Exception:
@@ -1359,9 +1360,10 @@ class BaseImage(metaclass=ImageMeta):
             image_it.close()
             self._close_image(img)
             self._seek_position = prev_seek_pos
-            # Move the cursor to the last line of the image to prevent "overlaid"
-            # output in the terminal
-            print(cursor_down, end="")
+            # If interrupted, move the cursor to the last line of the image to prevent
+            # "overlaid" output in the terminal. Otherwise, it's already there.
+            if not completed:
+                print(cursor_down, end="")
 
     def _format_render(
         self,
